@@ -290,12 +290,43 @@ pub struct Outcome {
 
 pub fn run_scenario(shape: &str, depth: usize, api: &str) -> Outcome {
     let exe = std::env::current_exe().expect("current exe");
-    let out = Command::new(exe)
-        .args(["c11child", shape, &depth.to_string(), api])
-        .stdin(Stdio::null())
-        .stdout(Stdio::piped())
-        .stderr(Stdio::piped())
-        .output();
+    // run the child with a generous wall-clock limit (a scenario normally takes well under a second)
+    let out = (|| -> std::io::Result<std::process::Output> {
+        let mut child = Command::new(exe)
+            .args(["c11child", shape, &depth.to_string(), api])
+            .stdin(Stdio::null())
+            .stdout(Stdio::piped())
+            .stderr(Stdio::piped())
+            .spawn()?;
+        // drain the pipes on threads so that a chatty child cannot block on a full pipe
+        let mut so = child.stdout.take().unwrap();
+        let mut se = child.stderr.take().unwrap();
+        let t1 = std::thread::spawn(move || {
+            let mut v = vec![];
+            let _ = std::io::Read::read_to_end(&mut so, &mut v);
+            v
+        });
+        let t2 = std::thread::spawn(move || {
+            let mut v = vec![];
+            let _ = std::io::Read::read_to_end(&mut se, &mut v);
+            v
+        });
+        let start = std::time::Instant::now();
+        let status = loop {
+            if let Some(st) = child.try_wait()? {
+                break st;
+            }
+            if start.elapsed().as_secs() > 600 {
+                let _ = child.kill();
+                let st = child.wait()?;
+                let _ = t1.join();
+                let _ = t2.join();
+                return Ok(std::process::Output { status: st, stdout: b"CRUMB timeout\n".to_vec(), stderr: vec![] });
+            }
+            std::thread::sleep(std::time::Duration::from_millis(5));
+        };
+        Ok(std::process::Output { status, stdout: t1.join().unwrap_or_default(), stderr: t2.join().unwrap_or_default() })
+    })();
     let mut o = Outcome { status: String::new(), died: false, last_phase: "start".into(), result: String::new(), probes: vec![], max_depth: 0 };
     match out {
         Err(e) => {
@@ -320,6 +351,10 @@ pub fn run_scenario(shape: &str, depth: usize, api: &str) -> Outcome {
                         }
                     } else if r == "done" {
                         done = true;
+                    } else if r == "timeout" {
+                        o.status = "no result within 600 s (inconclusive)".into();
+                        o.result = "timeout".into();
+                        return o;
                     }
                 }
             }
@@ -390,7 +425,9 @@ pub fn run_c11(tier: &str, _seed: u64, shard: u64, nshards: u64, stats: &mut Sta
                 stats.cnt(&format!("shape_{shape}"), 1);
                 stats.max("max_depth_run", d as u64);
                 stats.max("max_event_nesting_observed", o.max_depth);
-                if o.result == "error" {
+                if o.result == "timeout" {
+                    stats.cnt("scenario_timeouts_inconclusive", 1);
+                } else if o.result == "error" {
                     stats.cnt("scenarios_ending_in_error_value", 1);
                 } else if o.result == "ok" {
                     stats.cnt("scenarios_succeeding", 1);
